@@ -353,9 +353,38 @@ func runC15(c *core.Ctx) {
 		spec := specs[rr.Intn(len(specs))]
 		c15Check(c, pool, spec, c15Build(rr, seq, spec))
 	}
+	all := append(append([]string{}, c15Texts...), c15Extra...)
+	// 1b. documents with very many headings (the count at every boundary size), each followed on the same long-lived
+	// instance by small documents that share their heading texts: whatever a big document leaves behind in the instance
+	// (an id table that is recycled, a buffer kept for reuse) shows in the ids of the next one
+	kb := 0
+	for _, nh := range wl.BoundarySizes {
+		if nh < 8 || nh > 1100 {
+			continue
+		}
+		for si := range specs {
+			kb++
+			if !c.Mine(kb) || (kb/16+si)%3 != 0 {
+				continue
+			}
+			rr := newRand(core.SeedFor(c.Seed, "c15big", kb))
+			seq := make([]string, nh)
+			for j := range seq {
+				seq[j] = all[rr.Intn(len(all))]
+			}
+			c15Check(c, pool, specs[si], c15Build(rr, seq, specs[si]))
+			c.Count("documents_with_many_headings", 1)
+			for f := 0; f < 3; f++ {
+				small := make([]string, 1+rr.Intn(4))
+				for j := range small {
+					small[j] = seq[rr.Intn(len(seq))]
+				}
+				c15Check(c, pool, specs[si], c15Build(rr, small, specs[si]))
+			}
+		}
+	}
 	// 2. random longer multisets (many duplicates force long suffix probing)
 	n2 := c.PerShard(c.N(120000, 6000000))
-	all := append(append([]string{}, c15Texts...), c15Extra...)
 	for i := 0; i < n2 && !c.Saturated(); i++ {
 		n := 2 + r.Intn(12)
 		if r.Intn(20) == 0 {
